@@ -10,6 +10,7 @@ mod cases;
 mod fieldw;
 mod parent;
 mod seeds;
+mod steps;
 mod targets;
 mod worker;
 
@@ -60,13 +61,15 @@ fn layouts(args: &Args) -> i32 {
 	let seeds = cases::all_seeds(args.u64("seed", 1));
 	let mut w = NdWriter::create(args.req("out"));
 	for t in targets::targets() {
-		w.put(&json!({"t": "target", "dec": t.name, "stream": t.kind == targets::TKind::Stream}));
+		w.put(&json!({"t": "target", "dec": t.name, "stream": t.kind == targets::TKind::Stream, "steps": t.steps}));
 	}
 	for (i, (ct, s)) in seeds.iter().enumerate() {
 		let kinds: Vec<&str> = s.fields.iter().map(|f| f.kind).collect();
 		let widths: Vec<usize> = s.fields.iter().map(|f| f.w).collect();
+		// 1-based field indices (TLA+ sequences) of the segment identifier and of the segment proof's hash count; 0 = none
+		let (ih, ii) = s.ident.map(|(h, i)| (h + 1, i + 1)).unwrap_or((0, 0));
 		w.put(&json!({"t": "layout", "id": i, "dec": s.target, "ct": ct.name(), "ver": s.ver, "label": s.label, "len": s.bytes.len(),
-			"kinds": kinds, "w": widths}));
+			"kinds": kinds, "w": widths, "ih": ih, "ii": ii, "pf": s.proof.map(|j| j + 1).unwrap_or(0)}));
 	}
 	w.finish();
 	0
